@@ -1597,7 +1597,8 @@ class LogicalFile:
             )
             for eflr_set_dict in self._eflr_sets.values():
                 for eflr_set in eflr_set_dict.values():
-                    for eflr_item in eflr_set.get_all_eflr_items():
+                    # (only what was added through this logical file: a set may be listed here by a rejected call)
+                    for eflr_item in eflr_set.get_items_added_via(eflr_set_dict):
                         if eflr_item.origin_reference is None:
                             eflr_item.origin_reference = o.origin_reference
             # Not enlisted in the sets. See Issue #
